@@ -72,7 +72,9 @@ func QuickRuns(id string) (int, int) {
 		return 400, 120
 	case "C05":
 		return 300, 120
-	case "C12", "C11":
+	case "C11":
+		return 300, 120
+	case "C12":
 		return 800, 120
 	case "C06":
 		return 1500, 120
